@@ -84,12 +84,24 @@ type faultPlan struct {
 	// limit > 0: a provider with limits — eth_getLogs over more than `limit` blocks is refused with -32005 ("query
 	// returned more than 10000 results"), smaller ranges sometimes answer with a null result; active until disabled
 	limit int
+	// lag > 0: a load balancer in front of several backends — every other request is answered by a backend that
+	// is up to lag blocks behind the head the task was told; active until disabled
+	lag int
 }
 
 func (fp *faultPlan) rpcHook(info *simnode.ReqInfo) simnode.Action {
 	fp.mu.Lock()
 	defer fp.mu.Unlock()
 	act := simnode.Action{ElemErr: -1}
+	if fp.lag > 0 {
+		if fp.disabled || info.Poller || !fp.r.Bool() {
+			return act
+		}
+		act.Behind = fp.r.Range(1, fp.lag)
+		fp.refusals++
+		fp.kinds["rpc:lagging-backend"] = true
+		return act
+	}
 	if fp.limit > 0 {
 		if fp.disabled || info.Poller {
 			return act
@@ -252,12 +264,16 @@ func c01Run(c *vk.Case) {
 			fp.limit, fp.rpcLeft, fp.sqlLeft = r.Range(1, 3), 0, 0
 			c.Obs("provider_limit_cases", 1)
 		}
+		if c.Index%8 == 5 {
+			fp.lag, fp.rpcLeft, fp.sqlLeft = r.Range(1, 3), 0, 0
+			c.Obs("lagging_backend_cases", 1)
+		}
 	}
 	node.SetHook(fp.rpcHook)
 	env.PG.SetFaultHook(fp.sqlHook)
 	nfaults := fp.rpcLeft + fp.sqlLeft
-	if fp.limit > 0 {
-		nfaults += 12 // the steps taken while the provider's limits are in force
+	if fp.limit > 0 || fp.lag > 0 {
+		nfaults += 12 // the steps taken while the provider's limits (the lagging backends) are in force
 	}
 
 	growLeft := r.Intn(4)
@@ -286,7 +302,7 @@ func c01Run(c *vk.Case) {
 		quiet := growLeft == 0
 		if quiet {
 			fp.mu.Lock()
-			if fp.rpcLeft == 0 && fp.sqlLeft == 0 && (fp.limit == 0 || steps >= 10) || steps > budget()/2 {
+			if fp.rpcLeft == 0 && fp.sqlLeft == 0 && (fp.limit == 0 && fp.lag == 0 || steps >= 10) || steps > budget()/2 {
 				fp.disabled = true
 			}
 			dis := fp.disabled
@@ -332,7 +348,7 @@ func c01Run(c *vk.Case) {
 		c.Seen("fault_sites", k)
 	}
 	injected := nfaults - fp.rpcLeft - fp.sqlLeft
-	if fp.limit > 0 {
+	if fp.limit > 0 || fp.lag > 0 {
 		injected = fp.refusals
 		c.Obs("provider_limit_answers", int64(fp.refusals))
 	}
